@@ -252,3 +252,36 @@ Definition must_be_silent (p : list N) (cap : N) : bool :=
         end
       else false
   end.
+
+(* ------------------------------------------------------------------------------------------------ *)
+(* The callers (inside.go).  rejectInside(packet, out, q): out is the routine's reject buffer of [buflen] bytes
+   (make([]byte, mtu)), the reply is written to the tun queue.  rejectOutside(packet, ..., rejectBuf, q): the
+   reply is built in the second half of the [buflen]-byte scratch buffer, dropped if it exceeds
+   MaxRejectPacketSize, and handed to the tunnel.  Result: the list of replies emitted (none or one).
+   The reject switches (firewall.OutboundSendReject / InboundSendReject) are on. *)
+Definition reject_inside (p : list N) (buflen : N) : res (list (list N)) :=
+  match create_reject p buflen with
+  | Ok [] => Ok []
+  | Ok o => Ok [o]
+  | Err e => Err e
+  | Panic => Panic
+  end.
+
+Definition outside_cap (buflen : N) : N := buflen - buflen / 2.
+
+Definition reject_outside (p : list N) (buflen : N) : res (list (list N)) :=
+  match create_reject p (outside_cap buflen) with
+  | Ok [] => Ok []
+  | Ok o => if rej_max_reject_packet_size <? blen o then Ok [] else Ok [o]
+  | Err e => Err e
+  | Panic => Panic
+  end.
+
+(* what a caller may emit for the rejected packet p: nothing, or exactly one reply that passes the validator
+   against the whole packet p, is within the documented maximum, and is not an answer to a packet that must not be answered *)
+Definition emitted_ok (p : list N) (cap : N) (ws : list (list N)) : bool :=
+  match ws with
+  | [] => true
+  | [w] => reply_ok p w && (blen w <=? rej_max_reject_packet_size) && negb (must_be_silent p cap)
+  | _ => false
+  end.
